@@ -117,7 +117,7 @@ def describe(T: str, root_resolved: str, jail_abs: str, exts) -> dict:
             else:
                 try:
                     r = str(Path(full).resolve())
-                except RuntimeError:
+                except (RuntimeError, OSError):
                     entries.append({"n": e.name, "k": "loop", "w": w})
                     continue
                 mentioned.add(r)
@@ -444,7 +444,7 @@ class C17(core.PropertyCheck):
             try:
                 Path(T, "r", "self").resolve()
                 ok3 = False
-            except RuntimeError:
+            except (RuntimeError, OSError):
                 ok3 = True
             ok4 = str(Path(T, "r", "dang").resolve()) == os.path.join(T, "r", "nowhere")
         finally:
@@ -452,7 +452,7 @@ class C17(core.PropertyCheck):
         return [
             ("os.walk(followlinks=True) puts links to directories into dirs; dangling and self-referential links into files", ok1, str(top[1:])),
             ("os.walk lists dirs and files in os.scandir order", ok2, f"{names} vs {top[1:]}"),
-            ("Path.resolve() raises RuntimeError on a link cycle (Kind.loop)", ok3, ""),
+            ("Path.resolve() raises RuntimeError (or OSError) on a link cycle (Kind.loop; caught by get_files)", ok3, ""),
             ("non-strict Path.resolve() of a dangling link is its lexical target (Kind.dangling)", ok4, ""),
         ]
 
@@ -461,7 +461,7 @@ class C17(core.PropertyCheck):
 
     # ---- cases --------------------------------------------------------------------------
     def generate(self, rng, budget, tier):
-        cases = [gen_case(rng, loops=(tier != "search" and rng.random() < 0.03)) for _ in range(budget)]
+        cases = [gen_case(rng, loops=(rng.random() < 0.15)) for _ in range(budget)]
         if tier != "search" and len(cases) >= 64 and core.NPROC > 1:
             # the tree descriptions for the model (materialise + scandir/resolve + remove) are independent:
             # compute them in a fork pool instead of one by one in model_request
@@ -615,8 +615,6 @@ class C17(core.PropertyCheck):
             n = sum(len(d["entries"]) for d in impl["fs"]["dirs"])
             return f"termination: more than {RUNAWAY} paths yielded from a tree of {n} names; the enumeration is not bounded by the tree"
         if impl.get("exc"):
-            if impl["exc"] == "RuntimeError" and self.has_wanted_loop(impl):
-                return None  # self-referential link: outside the quantifier (see report); model agrees that it raises
             return f"exception: get_files raised {impl['exc']}: {impl.get('msg')}"
         f = impl["facts"]
         if f["escapes"]:
